@@ -257,6 +257,29 @@ func c08Gated(w *ndWriter, m1, m2 string, preload int) {
 		return
 	}
 	g.gate = false
+	{ // straight after the overlap: one insertion and one removal (a value set aside by a call that found the structure busy must be
+		// where its completed call put it: below what is inserted now)
+		mi, mr := "Offer", "Poll"
+		if kind == "stack" {
+			mi, mr = "Push", "Pop"
+		}
+		rec.ev(E{"ev": "inv", "thr": "d", "op": opName(mi), "v": 60, "r": "-"})
+		_, err, back := wr.callTimed(mi, 60, 3*time.Second)
+		if !back {
+			rec.ev(E{"ev": "res", "thr": "d", "op": "stuck", "v": 0, "r": "panic"})
+			rec.flush(w)
+			return
+		}
+		rec.ev(E{"ev": "res", "thr": "d", "op": opName(mi), "v": 60, "r": resOf(err)})
+		rec.ev(E{"ev": "inv", "thr": "d", "op": opName(mr), "v": 0, "r": "-"})
+		v, err2, back2 := wr.callTimed(mr, 0, 3*time.Second)
+		if !back2 {
+			rec.ev(E{"ev": "res", "thr": "d", "op": "stuck", "v": 0, "r": "panic"})
+			rec.flush(w)
+			return
+		}
+		rec.ev(E{"ev": "res", "thr": "d", "op": opName(mr), "v": v, "r": resOf(err2)})
+	}
 	for { // drain and check nothing was lost or duplicated
 		m := "Poll"
 		if kind == "stack" {
